@@ -440,7 +440,8 @@ def check_c11(run, inp, sw, lines, argname, after, cls, before):
                     {"data": last["data"][:120], "load": last["load"], "exec": last["exec"], "name": last["name"], "ftype": last["ftype"]})
     # appended: the earlier files are still there, in order, before the new one
     if before is not None and cls["before"].get("tape") is not None:
-        old = cls["before"]["tape"]["files"] if sw == "to_cas" else (cls["before"]["dskread"].get("files") or [])
+        # (the old content may not be an image of this kind at all when the target was wrongly rewritten: no files then)
+        old = ((cls["before"].get("tape") or {}).get("files") or []) if sw == "to_cas" else ((cls["before"].get("dskread") or {}).get("files") or [])
         if [_key(f) for f in files[:-1]] != [_key(f) for f in old]:
             run.violate("C09/C10: appending disturbed the files already stored", inp, [f["name"] for f in old], [f["name"] for f in files[:-1]])
 
